@@ -9,13 +9,13 @@ Local Open Scope Z_scope.
 
 (* callback table (ICall n): 0=myth_entry_point_1, 1=myth_entry_point_2, 2=myth_startpoint_init_ex_1, 3=myth_startpoint_exit_ex_1, 4=myth_create_1, 5=myth_join_2, 6=myth_join_3, 7=myth_yield_ex_1, 8=myth_block_on_queue_cb, 9=myth_block_on_stack_cb, 10=myth_uncond_wait_cb *)
 
-(* myth_log.c -O0  src/myth_sched_func.h:1273 *)
+(* myth_log.c -O0  src/myth_sched_func.h:1274 *)
 Definition site_0 : site :=
   mkSite 0
     [ILoadRsp RAX; ICall 0; IPop RAX; IJmp RAX]
     [RAX; RCX; RDX; RSI; RDI] [RAX; RDI; RSI; RDX] [R8; R9; R10; R11] true true.
 
-(* myth_log.c -O0  src/myth_sched_func.h:1316 *)
+(* myth_log.c -O0  src/myth_sched_func.h:1317 *)
 Definition site_1 : site :=
   mkSite 1
     [ILoadRsp RAX; ICall 1; IPop RAX; IJmp RAX]
@@ -45,19 +45,19 @@ Definition site_5 : site :=
     [ISubRsp 128; IPush RBP; IPush RBX; IPush R12; IPush R13; IPush R14; IPush R15; ISubRsp 8; ILea 1 RBP; IPush RBP; IStoreRsp RAX; ILoadRsp RCX; ICall 4; IPop RAX; IJmp RAX; ILabel 1; IAddRsp 8; IPop R15; IPop R14; IPop R13; IPop R12; IPop RBX; IPop RBP; IAddRsp 128]
     [RAX; RCX; RDX; RSI; RDI] [RAX; RCX; RDI; RSI; RDX] [R8; R9; R10; R11] true true.
 
-(* myth_if_native.c -O0  src/myth_sched_func.h:653 *)
+(* myth_if_native.c -O0  src/myth_sched_func.h:654 *)
 Definition site_6 : site :=
   mkSite 6
     [ISubRsp 128; IPush RBP; IPush RBX; IPush R12; IPush R13; IPush R14; IPush R15; ISubRsp 8; ILea 1 RBP; IPush RBP; IStoreRsp RAX; ILoadRsp RCX; ICall 5; IPop RAX; IJmp RAX; ILabel 1; IAddRsp 8; IPop R15; IPop R14; IPop R13; IPop R12; IPop RBX; IPop RBP; IAddRsp 128]
     [RAX; RCX; RDX; RSI; RDI] [RAX; RCX; RDI; RSI; RDX] [R8; R9; R10; R11] true true.
 
-(* myth_if_native.c -O0  src/myth_sched_func.h:663 *)
+(* myth_if_native.c -O0  src/myth_sched_func.h:664 *)
 Definition site_7 : site :=
   mkSite 7
     [ISubRsp 128; IPush RBP; IPush RBX; IPush R12; IPush R13; IPush R14; IPush R15; ISubRsp 8; ILea 1 RBP; IPush RBP; IStoreRsp RAX; ILoadRsp RCX; ICall 6; IPop RAX; IJmp RAX; ILabel 1; IAddRsp 8; IPop R15; IPop R14; IPop R13; IPop R12; IPop RBX; IPop RBP; IAddRsp 128]
     [RAX; RCX; RDX; RSI; RDI] [RAX; RCX; RDI; RSI; RDX] [R8; R9; R10; R11] true true.
 
-(* myth_if_native.c -O0  src/myth_sched_func.h:1050 *)
+(* myth_if_native.c -O0  src/myth_sched_func.h:1051 *)
 Definition site_8 : site :=
   mkSite 8
     [ISubRsp 128; IPush RBP; IPush RBX; IPush R12; IPush R13; IPush R14; IPush R15; ISubRsp 8; ILea 1 RBP; IPush RBP; IStoreRsp RAX; ILoadRsp RCX; ICall 7; IPop RAX; IJmp RAX; ILabel 1; IAddRsp 8; IPop R15; IPop R14; IPop R13; IPop R12; IPop RBX; IPop RBP; IAddRsp 128]
@@ -98,4 +98,29 @@ Definition mk_voidcall_ops : list mkop := [MkSub 8; MkAnd 18446744073709551600; 
      myth_make_context_voidcall(.., stk, ..)   => stack top 1*stk-16-1*round16(size)+0*size *)
 Definition cd_layout : carve :=
   mkCarve (Some (mkLin 1 (-16) (-1) 0)) (Some (mkLin 1 (-16) (-1) 0)) (Some (mkLin 1 0 (-1) 0)) (Some (mkLin 1 0 (-1) 0)) (Some (mkLin 0 0 0 1)) true.
+
+(* publication of the running thread vs. the save of its context, per non-callback function body;
+   callbacks (PSwitchCall n / PSetCall n): 0=myth_block_on_queue_cb, 1=myth_block_on_stack_cb, 2=myth_create_1, 3=myth_entry_point_1, 4=myth_entry_point_2, 5=myth_join_2, 6=myth_join_3, 7=myth_startpoint_exit_ex_1, 8=myth_startpoint_init_ex_1, 9=myth_uncond_wait_cb, 10=myth_yield_ex_1 *)
+(* myth_block_on_queue  (src/myth_sync_func.h:86)  PSwitchCall myth_block_on_queue_cb *)
+Definition body_0 : list pev := [PSwitchCall 0].
+(* myth_block_on_stack  (src/myth_sync_func.h:138)  PSwitchCall myth_block_on_stack_cb *)
+Definition body_1 : list pev := [PSwitchCall 1].
+(* myth_create_ex_body  (src/myth_sched_func.h:383)  PSwitchCall myth_create_1; PPubOther myth_queue_push(new_thread) *)
+Definition body_2 : list pev := [PSwitchCall 2; PPubOther].
+(* myth_entry_point_cleanup  (src/myth_sched_func.h:1224)  PSetCall myth_entry_point_1; PSetCall myth_entry_point_1; PSetCall myth_entry_point_2 *)
+Definition body_3 : list pev := [PSetCall 3; PSetCall 3; PSetCall 4].
+(* myth_join_body  (src/myth_sched_func.h:550)  PSwitchCall myth_join_2; PSwitchCall myth_join_3 *)
+Definition body_4 : list pev := [PSwitchCall 5; PSwitchCall 6].
+(* myth_sched_loop  (src/myth_worker_func.h:575)  PSwitchPlainSched &env->sched.context; PSwitchPlainSched &env->sched.context *)
+Definition body_5 : list pev := [PSwitchPlainSched; PSwitchPlainSched].
+(* myth_startpoint_exit_ex_body  (src/myth_worker_func.h:392)  PSwitchCall myth_startpoint_exit_ex_1 *)
+Definition body_6 : list pev := [PSwitchCall 7].
+(* myth_startpoint_init_ex_body  (src/myth_worker_func.h:324)  PSwitchCall myth_startpoint_init_ex_1 *)
+Definition body_7 : list pev := [PSwitchCall 8].
+(* myth_uncond_wait_body  (src/myth_sync_func.h:1122)  PSwitchCall myth_uncond_wait_cb *)
+Definition body_8 : list pev := [PSwitchCall 9].
+(* myth_yield_ex_body  (src/myth_sched_func.h:995)  PSwitchCall myth_yield_ex_1 *)
+Definition body_9 : list pev := [PSwitchCall 10].
+Definition bodies : list (list pev) := [body_0; body_1; body_2; body_3; body_4; body_5; body_6; body_7; body_8; body_9].
+
 
